@@ -39,7 +39,7 @@ def run(ctx: core.Ctx):
     thorough = ctx.tier == "thorough"
     names = sorted({f["name"] for c in T["classes"] for f in c["fns"]})
     disagreements = []
-    nseq = 60 if thorough else 6
+    nseq = 300 if thorough else 6
     ncmd = 400 if thorough else 150
     import re
     for path in srv.recordings():
